@@ -6,6 +6,8 @@ REALS = "assume:python floats are treated as mathematical reals (rounding, NaN a
 EXTRACTION = ("extraction: the verified text is the function's AST re-read from /repo on every run; dropped: "
               "docstrings, annotations, logging calls, typing.cast")
 
+C03_ASSUME = [REALS, EXTRACTION]
+
 PROPS = {
     "C03": dict(
         modules=["pm_bounds", "pm_matryoshka"],
@@ -20,6 +22,22 @@ PROPS = {
         level="proof",
         explanation="Contracts on the real functions, discharged per function (callers use callee contracts) by a "
                     "VC generator over the source AST with z3; loops by inductive invariants.",
+        assumptions=[REALS, EXTRACTION],
+    ),
+    "C04": dict(
+        modules=["pm_bounds", "pm_matryoshka"],
+        contracts=[
+            f"{PM}._bounds:check_exclusion_bounds_overlap",
+            f"{PM}._bounds:adjust_exclusion_bounds",
+            f"{PM}._bounds:clamp_to_bounds",
+            f"{PM}._matryoshka:Matryoshka._calc_target_power#c04",
+        ],
+        lemmas=[],
+        bounded=[],
+        level="proof",
+        explanation="Ghost recurrences G (running bounds) and T (running target) written from the property statement; "
+                    "both sweeps are proved to compute them (loop invariants), so what an actor is told equals what the "
+                    "manager then does.",
         assumptions=[REALS, EXTRACTION],
     ),
 }
